@@ -343,6 +343,14 @@ def apply_status(op: dict, row: tuple, completed_flags: list[bool]) -> tuple:
     return tuple(r)
 
 
+def diff_text(want: dict[str, tuple], got: dict[str, tuple]) -> str:
+    parts = []
+    for i in sorted(set(want) | set(got)):
+        if want.get(i) != got.get(i):
+            parts.append(f"handler {i}: stored {','.join(got[i]) if i in got else '<absent>'} / expected {','.join(want[i]) if i in want else '<absent>'}")
+    return "; ".join(parts[:4])
+
+
 def classify(sh: Shadow, want: dict[str, tuple], got: dict[str, tuple], bounded: bool) -> str:
     missing = [i for i in want if i not in got]
     extra = [i for i in got if i not in want]
@@ -413,7 +421,8 @@ def monitor_store(I: dict, kind: str, case: dict, outs: list[str]) -> Violation 
             want, stamp = sh.after_upsert(row_of(op["h"]))
             if got != want:
                 return V("update:" + classify(sh, want, got, bounded), f"table is {sorted(got)}, expected {sorted(want)} "
-                         f"(all non-terminal + the {case['max']} most recently completed; completion stamps {sh.stamp})", i)
+                         f"(all non-terminal + the {case['max'] if bounded else 'unbounded'} most recently completed; completion stamps {sh.stamp}); "
+                         + diff_text(want, got), i)
             sh.rows, sh.stamp = want, stamp
             continue
         if k == "S":
@@ -433,7 +442,8 @@ def monitor_store(I: dict, kind: str, case: dict, outs: list[str]) -> Violation 
                     break
             if not ok:
                 assert first is not None
-                return V("status_update:" + classify(sh, first[0], got, bounded), f"table is {got}, expected {first[0]}", i)
+                return V("status_update:" + classify(sh, first[0], got, bounded),
+                         f"table is {sorted(got)}, expected {sorted(first[0])}; " + diff_text(first[0], got), i)
     return None
 
 
@@ -546,7 +556,15 @@ def corpus() -> list[dict]:
         return {"k": "S", "run": run, "st": st, "res": res, "err": err, "idle": idle, "now": now}
 
     ALL = Q()
-    return [
+    extra = []
+    cdir = os.path.join(os.path.dirname(os.path.dirname(os.path.abspath(__file__))), "corpus")
+    for fn in sorted(os.listdir(cdir)):
+        if fn.startswith("c24_") and fn.endswith(".json"):
+            import json
+
+            c = json.load(open(os.path.join(cdir, fn)))["payload"]["case"]
+            extra.append({"name": fn, "max": c["max"], "ops": c["ops"] + [ALL]})
+    return extra + [
         # F22: three terminal updates of one handler must not evict it
         {"name": "f22", "max": 2, "ops": [H(7, 1), H(7, 1), H(7, 1), ALL, H(8, 1), H(9, 2), ALL]},
         {"name": "f22-status", "max": 2, "ops": [H(7, 0), S(17, 1, 100), S(17, None, 101, idle=None), S(17, 1, 102), ALL]},
@@ -593,9 +611,7 @@ def run_case(R: Runner, I: dict, case: dict, kinds: list[str]) -> tuple[dict[str
 def shrink(R: Runner, I: dict, v: Violation, budget: int = 150) -> Violation:
     """greedy one-op-at-a-time removal keeping the same signature"""
     case = dict(v.replay)
-    kinds = STORE_KINDS if case.get("kind") == "agree" else [case["kind"]]
-    if case.get("kind") == "agree":
-        kinds = ["memN", "sql0", "sql1"]
+    kinds = ["memN", "sql0", "sql1"] if case.get("kind") == "agree" else [case["kind"]]
     ops = list(case["ops"])
     best = v
     i = len(ops) - 2
@@ -638,7 +654,7 @@ def run(env: Env) -> Outcome:
             if isinstance(rc, dict) and "ops" in rc:
                 cases.append({"name": "replay", "max": rc.get("max"), "ops": rc["ops"]})
         cases += corpus()
-        n = env.budget(60, 1500)
+        n = env.budget(45, 1200)
         for _ in range(n):
             cases.append(gen_case(env.rng, env.rng.choice([25, 40, 60])))
         cases.append({"name": "malformed", "max": 1, "ops": [{"k": "M", "line": l} for l in MALFORMED]})
@@ -650,8 +666,8 @@ def run(env: Env) -> Outcome:
         for ci, case in enumerate(cases):
             outs, vs = run_case(R, I, case, STORE_KINDS)
             for v in vs:
-                if not any(f.signature == v.signature for f in found):
-                    found.append(shrink(R, I, v))
+                if not any(f.signature == v.signature for f in found) and len(found) < 12:
+                    found.append(shrink(R, I, v) if len(found) < 2 else v)
             for backend, kinds in (("mem", ["mem"]), ("memN", ["memN"]), ("sql", ["sql0", "sql1"])):
                 for kind in kinds:
                     ml = model_lines(case, backend)
